@@ -88,7 +88,10 @@ partial def detOfJson (j : Json) : Except String Det := do
     | _ =>
       match j.getObjVal? "values" with
       | .ok (.arr vs) => do pure (.values (← vs.toList.mapM pvOfJson))
-      | _ => throw "bad detection"
+      | _ =>
+        match j.getObjVal? "all" with
+        | .ok (.arr ds) => do pure (.all (← ds.toList.mapM detOfJson))
+        | _ => throw "bad detection"
 
 inductive TokJ
   | lp | rp | tand | tor | tnot
